@@ -70,6 +70,7 @@ Fixpoint dom_ops (o : oracle) (h w : nat) (ops : list op) : Prop :=
   | [] => True
   | Draw g :: ops' => in_domain o h w g = true /\ dom_ops o h w ops'
   | Resize h' w' g :: ops' => gdims g h' w' /\ dom_ops o h' w' ops'
+  | FailFrame _ :: _ => False
   | _ :: ops' => dom_ops o h w ops'
   end.
 
@@ -146,7 +147,7 @@ Proof.
   pose proof Hok as (Hsp & Hfs & Hlaw).
   pose proof (rinv_dims _ _ _ _ _ _ HR) as HD. pose proof HD as (Hh & Hw & Hsh & Hsw & Hsd).
   cbn [rrun]. rewrite (surjective_pairing (rstep o st x)). cbn [resume_run].
-  destruct x as [g| | | | |h' w' g].
+  destruct x as [g| | | | |h' w' g|k]; [| | | | | |contradiction].
   - (* Draw *)
     destruct Hdom as [Hg Hdom]. cbn [rstep fst snd]. unfold screen_step. rewrite exec_list_nil.
     assert (Hgd : grid_dims g (rh st) (rw st) = true).
